@@ -42,7 +42,7 @@ func runStream(e *simcore.Env, tp *simcore.Tape) {
 	synctest.Test(e.T, func(*testing.T) {
 		knobDesc, knobRestore := simknobs.Draw(tp, "stream")
 		defer knobRestore()
-		e.Event("%s", knobDesc)
+		simknobs.Record(e, knobDesc)
 		base := wl.GenStreamSchema(tp, wl.SchemaOpts{MaxShards: 2})
 		// twin schema: same tags, no index rule at all
 		bare := *base
@@ -403,7 +403,7 @@ func runMeasure(e *simcore.Env, tp *simcore.Tape) {
 	synctest.Test(e.T, func(*testing.T) {
 		knobDesc, knobRestore := simknobs.Draw(tp, "measure")
 		defer knobRestore()
-		e.Event("%s", knobDesc)
+		simknobs.Record(e, knobDesc)
 		base := wl.GenMeasureSchema(tp, wl.SchemaOpts{MaxShards: 2})
 		bare := *base
 		bare.Tags = append([]wl.TagSpec(nil), base.Tags...)
